@@ -2491,6 +2491,17 @@ def obligations(tier, seed):
             obs.append(scenario_ob("C16", "C15.hastings.hmc.mass_invariant[d=2,%s,%s]" % (rank, how), "V", "scn_mass_invariant", (2, rank, how),
                                    clause="Hastings ratio of the HMC operator uses the inverse of the mass matrix its momentum is drawn with, after every way a run changes the mass matrix",
                                    funcs=F, seed=seed, fns=_c16._fns(2)))
+    # the Hastings value itself (C16's scenarios, run under this property): plain trial, and a trial that fails inside the retry loop
+    # followed by one that succeeds (the ratio must be that of the momentum actually used), and the real MCMC.run accept rule on them
+    for rank in ("diag", "dense"):
+        obs.append(scenario_ob("C16", "C15.hastings.hmc[d=2,steps=2,%s]" % rank, "V", "scn_hastings", (2, (1, 1), rank, 2, [None], "real", "inverse", False),
+                               clause="Hastings ratio of the HMC operator = log ratio of reverse to forward proposal densities", funcs=F, seed=seed, fns=_c16._fns(2), timeout=240))
+        for f in (["U", 1], ["G", 1]):
+            obs.append(scenario_ob("C16", "C15.hastings.hmc.retry[%s%d-then-ok,%s]" % (f[0], f[1], rank), "V", "scn_hastings", (2, (1, 1), rank, 2, [f, None]),
+                                   clause="Hastings ratio of the HMC operator after a failed trial is that of the momentum actually used", funcs=F, seed=seed, fns=_c16._fns(2), timeout=240))
+        obs.append(scenario_ob("C16", "C15.hastings.hmc.mcmc[fail-then-ok,%s]" % rank, "V", "scn_mcmc", (2, (1, 1), rank, 2, [["G", 1], None]),
+                               clause="accept rule on the full Hamiltonian difference (real MCMC.run) after a failed trial", funcs=F, seed=seed, fns=_c16._fns(2), timeout=240,
+                               expect_paths_min=3))
     for rank in ("diag", "dense"):
         o_ = _c16.ob_mass_invariant_adaptor(rank)
         obs.append(Ob("C15.hastings.hmc.mass_invariant.adaptor[%s]" % rank, "B", o_.fn, clause=o_.clause, funcs=F, timeout=120))
